@@ -86,7 +86,7 @@ fn gen_nl64(r: &mut Rng) -> BigInt {
         7 => { let k = r.below(30) as u32; let x = pow2(62 - k) * BigInt::from(1 + r.below(3)); if r.bool() { -x } else { x } } // highly composite big values
         _ => BigInt::from(r.range(-6, 6)),
     };
-    x
+    if x.to_i64().is_some() { x } else { BigInt::from(r.range(-6, 6)) }
 }
 
 fn gen_nl128(r: &mut Rng) -> BigInt {
